@@ -343,7 +343,14 @@ def l6(chk):
                             sc = dict(k=k, liveS=liveS, bound=bound, uo=uo, uh=uh, extra=extra)
                             cross_block_case(chk, e, m, sc, (co, do, cn, dn))
                             n_sc += 1
-    chk.record("check_cfg_linearity:cases-explored", n_sc >= 80, str(n_sc), kind="reachability")
+    # borrowed parameter: must reach the exit unconsumed (or re-assigned), whatever happens in between
+    for k in (1, 2):
+        for bound in ("outer", "rebound"):
+            for uo in (False, True):
+                for uh in ((False, True) if bound == "rebound" else (False,)):
+                    cross_block_borrowed(chk, e, m, dict(k=k, bound=bound, uo=uo, uh=uh), (co, do, cn, dn))
+                    n_sc += 1
+    chk.record("check_cfg_linearity:cases-explored", n_sc >= 90, str(n_sc), kind="reachability")
     chk.use_engine(e)
 
 
@@ -450,6 +457,83 @@ def cross_block_case(chk, e, m, sc, syms):
         return z3.And(b_(ok), *[z3.Not(c) for c, _, _ in cases])
     tag = f"succs={k},live-into={''.join('1' if x else '0' for x in liveS)},{bound},used-before-binding={int(uo)},used-after={int(uh)}" + (",in-scope-not-live" if extra else "")
     chk.prove_paths(f"check_cfg_linearity[{tag}]:AlreadyUsed<=>consumed-here/\\not-copyable/\\live-later;NotUsed<=>alive-here/\\not-droppable/\\not-consumed/\\not-live-on-every-branch;else-rows=live-places", paths, post,
+                    func=f"{LC}:check_cfg_linearity", replay=lambda m_: {"script": ORACLE + REPLAY_FAMILY, "input": {}})
+
+
+def cross_block_borrowed(chk, e, m, sc, syms):
+    """x is a borrowed parameter: the exit block hands it back (InoutReturnSentinel), so the value of x
+    is live into every block.  A block that consumes the value it passes on (not copyable) is an
+    error naming the borrow; nothing else is."""
+    co, do, cn, dn = syms
+    k, bound, uo, uh = sc["k"], sc["bound"], sc["uo"], sc["uh"]
+    liveA = bound == "outer" or uo
+
+    def t(it):
+        w = world(e, it, {0: (SBool(co), SBool(do)), 1: (SBool(cn), SBool(dn))})
+        Sc = it.lookup_global(m, "Scope")
+        UK = it.lookup_global(m, "UseKind")
+        mv = it.getattr(UK, "MOVE")
+        P_old = mk_var(w, "x", w["leaf"](0), flags=w["inout"], defined="DEF-OLD")
+        P_new = mk_var(w, "x", w["leaf"](1), defined="DEF-NEW")
+        xid = it.getattr(P_old, "id")
+        out_place = P_old if bound == "outer" else P_new
+        BBc = it.lookup_global(e.module(CHKM), "CheckedBB")
+        names = ["entry", "A"] + [f"S{j}" for j in range(k)] + ["exit"]
+        bbs = {n_: SObj(BBc, {"idx": i, "name": n_, "statements": [], "branch_pred": None, "reachable": True, "predecessors": [], "successors": []}) for i, n_ in enumerate(names)}
+        bbs["entry"].fields["successors"] = [bbs["A"]]
+        bbs["A"].fields["successors"] = [bbs[f"S{j}"] for j in range(k)]
+        bbs["A"].fields["branch_pred"] = "PRED" if k == 2 else None
+        for j in range(k):
+            bbs[f"S{j}"].fields["successors"] = [bbs["exit"]]
+        for n_, b in bbs.items():
+            b.fields["sig"] = SObj(ClassVal("Sig", builtin=True), {"input_row": [P_old] if n_ == "entry" else [], "output_rows": [f"ORIG-{n_}-{j}" for j in range(len(b.fields["successors"]))]})
+            for s_ in b.fields["successors"]:
+                s_.fields["predecessors"].append(b)
+        scopes = {"entry": it.call(Sc, [], {})}
+        it.call_method(scopes["entry"], "assign", [P_old])
+        inA = it.call(Sc, [], {})
+        it.call_method(inA, "assign", [P_old])
+        scA = it.call(Sc, [inA], {})
+        if uo:
+            it.call_method(scA, "use", [xid, "USE-A-OUTER", mv])
+        if bound == "rebound":
+            it.call_method(scA, "assign", [P_new])
+            if uh:
+                it.call_method(scA, "use", [xid, "USE-A-HERE", mv])
+        scopes["A"] = scA
+        for n_ in [f"S{j}" for j in range(k)] + ["exit"]:
+            inS = it.call(Sc, [], {})
+            it.call_method(inS, "assign", [out_place])
+            scopes[n_] = it.call(Sc, [inS], {})
+        live = {bbs["entry"]: {}, bbs["A"]: ({xid: bbs["A"] if uo else bbs["exit"]} if liveA else {}), bbs["exit"]: {xid: bbs["exit"]}}
+        for j in range(k):
+            live[bbs[f"S{j}"]] = {xid: bbs["exit"]}
+        by_bb = {id(b): n_ for n_, b in bbs.items()}
+        e.models[f"{LC}:BBLinearityChecker"] = lambda it2, a, k_: SObj(ClassVal("BBLC", builtin=True), {"check": Builtin("check", lambda bb, **kw: scopes[by_bb[id(bb)]])})
+        e.models["guppylang_internals.cfg.analysis:LivenessAnalysis"] = lambda it2, a, k_: SObj(ClassVal("LA", builtin=True), {"run": Builtin("run", lambda bbs_: live)})
+        cfg = SObj(ClassVal("CheckedCFG", builtin=True), {"bbs": list(bbs.values()), "entry_bb": bbs["entry"], "exit_bb": bbs["exit"], "input_tys": [], "output_ty": "RET",
+                                                          "live_before": {b: {} for b in bbs.values()}, "ass_before": {b: set() for b in bbs.values()}, "maybe_ass_before": {b: set() for b in bbs.values()}, "unitary_flags": "FLAGS"})
+        r = it.call(it.lookup_global(m, "check_cfg_linearity"), [cfg, "fname", "GLOBALS"], {})
+        exit_use = it.call_method(scopes["exit"], "used", [xid])
+        return r, exit_use
+    paths = e.explore(t)
+    T, F = z3.BoolVal(True), z3.BoolVal(False)
+    b_ = lambda v: T if v else F   # noqa: E731
+    c_out = co if bound == "outer" else cn
+    consumed = uo if bound == "outer" else uh
+    cases = [(z3.And(z3.Not(do), b_(not liveA)), "PlaceNotUsedError"),            # entry: the old value is overwritten in A without having been used
+             (z3.And(z3.Not(c_out), b_(consumed)), "BorrowSubPlaceUsedError")]   # A: the value handed on was consumed
+
+    def post(p):
+        if p.kind == "raise":
+            kind = raised_kind(p)
+            alts = [z3.And(cond, *[z3.Not(c) for c, _ in cases[:i]]) for i, (cond, kd) in enumerate(cases) if kd == kind]
+            return z3.Or(*alts) if alts else F
+        if p.kind != "return":
+            return F
+        r, exit_use = p.value
+        return z3.And(b_(exit_use is not None), *[z3.Not(c) for c, _ in cases])
+    chk.prove_paths(f"check_cfg_linearity[borrowed parameter,succs={k},{bound},used-before-binding={int(uo)},used-after={int(uh)}]:error-naming-the-borrow<=>the-value-passed-on-was-consumed/\\not-copyable;the-exit-block-uses-it", paths, post,
                     func=f"{LC}:check_cfg_linearity", replay=lambda m_: {"script": ORACLE + REPLAY_FAMILY, "input": {}})
 
 
